@@ -23,7 +23,11 @@ Scenario (JSON, the same record TLC reads):
   fault: {step, f, k}   step in none|parse|matchproc|provider|unknown|unresolvable|init|objproc|modelproc,
                         located at file f and reference / object k,
   follow: file index of the follow-up input,
+  prov: uri (import statements + ImportURI provider) | glob (main model loaded from a string, the other
+        files found by a GlobalRepo provider's file pattern),
   flav: {class: flavour}   (rendering only; the specification sees `own`)
+  exc: Exception|BaseException|KeyboardInterrupt|SystemExit   (rendering only: class of the exception
+                        user code raises at the fault point; the load "fails" in the same way)
 """
 from __future__ import annotations
 
@@ -50,7 +54,8 @@ Comment: /#.*$/;
 '''
 RULE_ATTRS = {"Model": ["name", "imports", "elems"], "Pkg": ["name", "elems"], "DefA": ["name", "extends"]}
 MODEL_CLASSES = ("Model", "Pkg", "DefA", "DefB", "Use")
-FLAVOURS = ("plain", "slots", "frozen", "setattr", "getattribute")
+FLAVOURS = ("plain", "slots", "frozen", "setattr", "getattribute", "classattr")
+EXC_KINDS = ("Exception", "BaseException", "KeyboardInterrupt", "SystemExit")
 PAD = 400            # every file starts at its own offset so that _tx_position identifies an object
 BOOM = "boomref"     # reference text on which the match processor raises
 NOPE = "nope"        # a name nothing defines
@@ -58,6 +63,22 @@ NOPE = "nope"        # a name nothing defines
 
 class Boom(Exception):
     """Raised by harness callbacks at the injected fault point."""
+
+
+class BoomBase(BaseException):
+    """The same, for loads aborted by something that is not an Exception (sys.exit, Ctrl-C, ...)."""
+
+
+def boom(sc, step):
+    """The exception user code raises at the fault point; its class is a rendering choice (sc['exc'])."""
+    kind = sc.get("exc", "Exception")
+    if kind == "BaseException":
+        return BoomBase(step)
+    if kind == "KeyboardInterrupt":
+        return KeyboardInterrupt("Boom:" + step)
+    if kind == "SystemExit":
+        return SystemExit("Boom:" + step)
+    return Boom(step)
 
 
 def oid(f, k):
@@ -92,8 +113,8 @@ def render_file(sc, f):
         objpos[pos()] = k
         if o["cls"] == "Model":
             out.append(f"model {nm}")
-            for i in fl["imports"]:
-                out.append(f' import "f{i}.m"')
+            for i in (fl["imports"] if sc.get("prov", "uri") == "uri" else []):
+                out.append(f' import "f{i}.m"')      # (a pattern provider finds the other files itself)
             for j in kids:
                 out.append(" ")
                 emit(j)
@@ -164,6 +185,15 @@ def make_class(cname, flavour, drv):
                 if self.__dict__.get("_frozen"):
                     raise AttributeError("frozen")
                 object.__setattr__(self, name, value)
+    elif flavour == "classattr":
+        # class-level defaults named like the grammar attributes (`elems = []`, `name = None`)
+        class C:
+            def __init__(self, **kw):
+                log_init(self, kw)
+                for k, v in kw.items():
+                    setattr(self, k, v)
+        for a in attrs:
+            setattr(C, a, None if a == "name" else [])
     elif flavour == "setattr":
         class C:
             sets = 0
@@ -216,8 +246,9 @@ def class_snapshot(cls):
 
 # ------------------------------------------------------------------ the run
 class Driver:
-    def __init__(self, sc, workdir):
+    def __init__(self, sc, workdir, write="all"):
         self.sc, self.dir = sc, workdir
+        self.glob = sc.get("prov", "uri") == "glob"   # provider finds files by pattern lib*.m; main is a string
         self.events = []
         self.texts, self.refpos, self.objpos = {}, {}, {}
         for f in range(1, len(sc["files"]) + 1):
@@ -227,8 +258,14 @@ class Driver:
                 self.refpos[p] = (f, k)
             for p, k in op.items():
                 self.objpos[p] = (f, k)
-            if sc["files"][f - 1]["kind"] in ("main", "import", "follow"):
-                with open(os.path.join(workdir, f"f{f}.m"), "w") as fh:
+            kind = sc["files"][f - 1]["kind"]
+            if self.glob:
+                # the follow-up input is written when its turn comes (it matches the pattern itself)
+                towrite = kind == "import" and write == "all"
+            else:
+                towrite = kind in ("main", "import", "follow")
+            if towrite:
+                with open(self.path(f), "w") as fh:
                     fh.write(t)
         self.byname = {}
         for f in range(1, len(sc["files"]) + 1):
@@ -240,6 +277,22 @@ class Driver:
         self.round = 1
         self.classes = {}
         self.base = {}
+
+    def path(self, f):
+        kind = self.sc["files"][f - 1]["kind"]
+        if self.glob:
+            return os.path.join(self.dir, "libfollow.m" if kind == "follow" else f"lib{f}.m")
+        return os.path.join(self.dir, f"f{f}.m")
+
+    def start_follow(self):
+        """Round 2.  With a pattern provider: the files of round 1 go away, the follow-up file appears."""
+        self.round = 2
+        if self.glob:
+            for n in os.listdir(self.dir):
+                if n.startswith("lib"):
+                    os.remove(os.path.join(self.dir, n))
+            with open(self.path(self.sc["follow"]), "w") as fh:
+                fh.write(self.texts[self.sc["follow"]])
 
     # ---- set-up
     def build(self):
@@ -259,7 +312,8 @@ class Driver:
             """ImportURI loading + answers scheduled by the scenario (Postponed / raise / nested load)."""
 
             def __init__(self):
-                self.real = sp.PlainNameImportURI()
+                self.real = (sp.PlainNameGlobalRepo(os.path.join(drv.dir, "lib*.m")) if drv.glob
+                             else sp.PlainNameImportURI())
 
             def load_models(self, model, encoding="utf-8"):
                 drv._flush_new()      # the file is constructed: name its user objects while they have their names
@@ -354,7 +408,7 @@ class Driver:
                   parent=self.name_of(par) if par is not None else 0, st=self.state())
         ft = sc["fault"]
         if ft["step"] == "init" and me == oid(ft["f"], ft["k"]) and self.round == 1:
-            raise Boom("init")
+            raise boom(self.sc, "init")
 
     def on_objproc(self, rule, o):
         self.weak.append(weakref.ref(o))
@@ -362,12 +416,12 @@ class Driver:
         self.emit("ObjProc", rule=rule, obj=n, st=self.state())
         ft = self.sc["fault"]
         if ft["step"] == "objproc" and n == oid(ft["f"], ft["k"]) and self.round == 1:
-            raise Boom("objproc")
+            raise boom(self.sc, "objproc")
 
     def on_matchproc(self, value):
         self._flush_new()
         if value == BOOM:
-            raise Boom("matchproc")
+            raise boom(self.sc, "matchproc")
         return value
 
     def on_modelproc(self, model):
@@ -375,7 +429,7 @@ class Driver:
         self.emit("ModelProc", f=f, st=self.state())
         ft = self.sc["fault"]
         if ft["step"] == "modelproc" and f == ft["f"] and self.round == 1:
-            raise Boom("modelproc")
+            raise boom(self.sc, "modelproc")
 
     def on_resolve(self, real, obj, attr, ref):
         from textx.scoping import Postponed
@@ -389,12 +443,12 @@ class Driver:
             self.emit("InnerBegin", f=r["inner"], st=self.state())
             try:
                 self.load_str(r["inner"])
-            except Exception:
+            except BaseException:
                 if not r.get("swallow"):
                     raise
         if ft["step"] == "provider" and (f, k) == (ft["f"], ft["k"]) and self.round == 1:
             self.emit("Resolve", f=f, k=k, ans="raise", st=self.state())
-            raise Boom("provider")
+            raise boom(self.sc, "provider")
         post = 10 ** 6 if (ft["step"] == "unresolvable" and (f, k) == (ft["f"], ft["k"]) and self.round == 1) else r["post"]
         if n <= post:
             self.emit("Resolve", f=f, k=k, ans="postponed", st=self.state())
@@ -411,8 +465,10 @@ class Driver:
         kind = "ok"
         if err is not None:
             kind = type(err).__name__
-            if isinstance(err, Boom):
+            if isinstance(err, (Boom, BoomBase)):
                 kind = "Boom:" + str(err)
+            elif isinstance(err, (KeyboardInterrupt, SystemExit)) and str(err).startswith("Boom:"):
+                kind = str(err)
             elif kind == "TextXSemanticError":
                 msg = str(err)
                 kind = "unknown" if "Unknown object" in msg else (
@@ -426,7 +482,7 @@ class Driver:
         self.emit("LoadBegin", f=f)
         try:
             m = self.mm.model_from_str(self.texts[f])
-        except Exception as e:
+        except BaseException as e:
             self._end(f, e)
             raise
         self._end(f, None)
@@ -435,8 +491,11 @@ class Driver:
     def load_file(self, f):
         self.emit("LoadBegin", f=f)
         try:
-            m = self.mm.model_from_file(os.path.join(self.dir, f"f{f}.m"))
-        except Exception as e:
+            if self.glob and self.sc["files"][f - 1]["kind"] == "main":
+                m = self.mm.model_from_str(self.texts[f])
+            else:
+                m = self.mm.model_from_file(self.path(f))
+        except BaseException as e:
             return None, self._end(f, e)
         return m, self._end(f, None)
 
@@ -506,14 +565,14 @@ def run_scenario(sc):
         follow = None
         if sc.get("follow"):
             del model
-            drv.round = 2
+            drv.start_follow()
             m2, kind2 = drv.load_file(sc["follow"])
             st2 = drv.state()
             drv.emit("Post", ok=kind2 == "ok", st=st2, retained=[])
             d2 = dump_model(drv, m2) if m2 is not None else None
-            fresh = Driver(dict(sc, fault=dict(step="none", f=0, k=0)), work)
+            fresh = Driver(dict(sc, fault=dict(step="none", f=0, k=0)), work, write="follow")
             fresh.build()
-            fresh.round = 2
+            fresh.start_follow()
             m3, kind3 = fresh.load_file(sc["follow"])
             d3 = dump_model(fresh, m3) if m3 is not None else None
             follow = dict(res=kind2, fresh_res=kind3, same_dump=d2 == d3, dump=d2, fresh_dump=d3,
@@ -575,4 +634,6 @@ def tlc_events(sc, run):
 
 def spec_scenario(sc):
     """The part of the scenario the specification reads (no rendering choices)."""
-    return {k: sc[k] for k in ("id", "user", "own", "grepo", "procs", "files", "fault", "follow")}
+    d = {k: sc[k] for k in ("id", "user", "own", "grepo", "procs", "files", "fault", "follow")}
+    d["prov"] = sc.get("prov", "uri")
+    return d
